@@ -1080,11 +1080,10 @@ class CallMixin(object):
                 self.store_back(fnode, new, st)
                 return NONE_V
             if name == 'remove':
-                x = coerce(args[0], s.elem).t
-                i = z3.IndexOf(recv.t, z3.Unit(x), 0)
-                self.raise_if(st, i < 0, 'ValueError', 'list.remove of a missing element')
-                n = z3.Length(recv.t)
-                self.store_back(fnode, SV(s, z3.Concat(z3.Extract(recv.t, 0, i), z3.Extract(recv.t, i + 1, n - i - 1))), st)
+                x = coerce(args[0], s.elem)
+                self.raise_if(st, z3.Not(self.seq_contains(recv, x)), 'ValueError', 'list.remove of a missing element')
+                # the list without the first occurrence: same element-wise definition as the spec function seq_remove
+                self.store_back(fnode, self.bi_seq_remove([recv, x], {}, st, node), st)
                 return NONE_V
             if name == 'index':
                 x = coerce(args[0], s.elem).t
